@@ -16,7 +16,12 @@ fn main() {
     match cmd {
         "replay" => {
             let path = args.get(2).expect("replay <file>");
-            let st = match replay::replay_file(path, arg(&args, "--types").as_deref(), arg(&args, "--ops").as_deref(), 5) {
+            let mode = match arg(&args, "--mode").as_deref() {
+                Some("tworun") => replay::Mode::TwoRun,
+                Some("zerofill") => replay::Mode::ZeroFill,
+                _ => replay::Mode::Plain,
+            };
+            let st = match replay::replay_file(path, arg(&args, "--types").as_deref(), arg(&args, "--ops").as_deref(), 5, mode) {
                 Ok(s) => s,
                 Err(e) => {
                     eprintln!("tool error: {e}");
@@ -30,6 +35,21 @@ fn main() {
                 "mismatches": st.mismatches, "samples": st.samples,
             });
             println!("{}", out);
+        }
+        "keysfor" => {
+            // keysfor <json list of type descriptors> <json list of mantissas>
+            let tys: Vec<serde_json::Value> = serde_json::from_str(&args[2]).unwrap();
+            let mants: Vec<u64> = serde_json::from_str(&args[3]).unwrap();
+            let mut out = std::collections::BTreeSet::new();
+            for t in &tys {
+                for m in &mants {
+                    for k in registry::keys_for(t, *m) {
+                        // a Mant = 53 run is replayed on f64 types only, a Mant = 24 run on both
+                        out.insert(k.to_string());
+                    }
+                }
+            }
+            println!("{}", json!(out.into_iter().collect::<Vec<_>>()));
         }
         "keys" => {
             for k in registry::ALL_KEYS {
